@@ -1768,6 +1768,15 @@ class SchemaValidator:
             return self._resolve_type_from_local_ref(ref, path=path)
         elif is_global_ref(ref) and utils.parse_ref_type(ref) == "object_promise":
             # global ref
+            pipeline = self._get_pipeline_at_path(path)
+            if (
+                pipeline is not None
+                and self._normalize_ref(utils.reduce_ref(ref))
+                == pipeline.object_promise_ref
+            ):
+                raise Exception(
+                    f"cannot use local object as pipeline input ({pipeline.object_promise_ref})"
+                )
 
             return self._resolve_type_from_global_ref(
                 ref, resolution_context_thread_group_ref
